@@ -33,6 +33,12 @@ func verifC01Check(d *verifData, x verifExpr) {
 		// not have altered what the index holds (preloaded bitmaps in particular)
 		res2, err2 := idx.Execute(&Query{Expr: x.e})
 		verifAssert(err2 == nil && res2 != nil && res2.Count == verifCard(x.den), "C01: the same query on the same index returned another count the second time")
+		// the total does not depend on a group-by list: rows that lack a grouped column belong
+		// to no group but are counted all the same
+		for _, gcol := range d.cols {
+			resg, errg := idx.Execute(&Query{Expr: x.e, GroupBy: []string{gcol}})
+			verifAssert(errg == nil && resg != nil && resg.Count == verifCard(x.den), "C01: with a group-by list the total count differs from the number of rows satisfying the expression")
+		}
 		for ci, col := range d.cols {
 			for vi, val := range d.vals[ci] {
 				r, e := idx.Execute(&Query{Expr: &ExprEqual{Column: col, Value: val}})
